@@ -1,7 +1,7 @@
 #!/bin/bash
 # usage: tools/try_w3.sh <PROP> <k> [extra props, comma separated]   (wave-3 output under /tmp/w3/out-<PROP>/<k>)
 P="$1"; K="$2"; EXTRA="${3:-}"
-D=/tmp/w3/out-$P/$K
+D=/tmp/${W:-w3}/out-$P/$K
 DEMO=$D/demo_test.go
 PKG=$(grep -m1 -o 'package dir: *[^ ]*' "$DEMO" | sed 's/package dir: *//')
 PROPS="$P"; [ -n "$EXTRA" ] && PROPS="$P,$EXTRA"
